@@ -167,10 +167,17 @@ def run_script(stage, script: bytes, variant, extra=None):
     return res, w
 
 
-def judge(stage, what, script, variant, res, out, classes, case):
+def judge(stage, what, script, variant, res, out, classes, case, w=None):
     def bad(kind, msg, **sigx):
         out.append({"oracle": "C15." + kind, "message": f"{msg} | stage={stage} input={what} variant={variant} bytes={script[:120]!r}",
                     "signature": dict({"harness": "peerinput", "stage": stage, "kind": kind}, **sigx), "case": case})
+    # C06 (collected by C06's check, not by C15's): whatever the peer sent, after pool.close() no stream may be left open
+    if w is not None and res[0] in ("ok", "exc"):
+        still = [repr(t) for t in w.net.open_transports()]
+        if still:
+            out.append({"oracle": "C06.open-after-pool-close", "message": f"streams still open after pool.close(): {still}; the call ended with "
+                        f"{res[0] if res[0] == 'ok' else exc_class(res[1])} | stage={stage} input={what} variant={variant} bytes={script[:120]!r}",
+                        "signature": {"harness": "peerinput", "stage": stage, "kind": "open-after-pool-close"}, "case": case})
     if res[0] == "ok":
         classes.add((stage, "ok"))
         return
@@ -267,7 +274,7 @@ def _job(chunk):
             res, w = run_script(stage, script, variant, extra)
             before = len(out)
             judge(stage, what, script, variant, res, out, classes, {"stage": stage, "what": what, "script": script.hex(), "variant": variant,
-                                                                    "extra": None if extra is None else {"replies": [r.hex() for r in extra["replies"]], "auth": extra["auth"]}})
+                                                                    "extra": None if extra is None else {"replies": [r.hex() for r in extra["replies"]], "auth": extra["auth"]}}, w=w)
             del out[before + 2:]
     return n, out, classes
 
@@ -279,8 +286,24 @@ def replay_case(case):
         extra = {"replies": [bytes.fromhex(r) for r in case["extra"]["replies"]], "auth": case["extra"]["auth"]}
     script = bytes.fromhex(case["script"])
     res, w = run_script(case["stage"], script, case["variant"], extra)
-    judge(case["stage"], case["what"], script, case["variant"], res, out, classes, case)
+    judge(case["stage"], case["what"], script, case["variant"], res, out, classes, case, w=w)
     return out
+
+
+def peer_input_for_c06(tier, workers=None):
+    """The peer-input corpus (every 4th case in the quick tier) judged for C06 only: no stream open after pool.close()."""
+    allc = list(gen_cases(tier))
+    if tier == "quick":
+        allc = allc[::4]
+    nw = workers or min(16, os.cpu_count() or 1)
+    size = max(1, min(400, len(allc) // (nw * 8)))
+    chunks = [allc[i:i + size] for i in range(0, len(allc), size)]
+    total, viols = 0, []
+    with mp.get_context("fork").Pool(nw) as pool:
+        for n, v, cl in pool.imap(_job, chunks):
+            total += n
+            viols += [x for x in v if x["oracle"].startswith("C06.")]
+    return viols, {"peer_input_cases": len(allc), "runs": total}
 
 
 def check(tier="quick", seed=0, workers=None, only=None):
@@ -294,7 +317,7 @@ def check(tier="quick", seed=0, workers=None, only=None):
     with mp.get_context("fork").Pool(nw) as pool:
         for n, v, cl in pool.imap(_job, chunks):
             total += n
-            viols += v
+            viols += [x for x in v if x["oracle"].startswith("C15.")]
             classes |= cl
     # (c) injected backend exceptions at every operation of every connection type: the seqfault exploration
     from . import c05
